@@ -665,6 +665,10 @@ def check_format_helpers(fx, rep, rule):
         b = fx.bodies[p]
         sy = S.Sym(fx)
         res = sy.eval_body(b)
+        if any(e_[0] == "call" and e_[1].startswith("proguard::") for st_, o_ in res for e_ in st_.effects):
+            # a private writer helper (`keep_line(out, line)`) is evaluated through
+            sy = S.Sym(fx, inline_mut=True)
+            res = sy.eval_body(b)
         names = [prm["pat"]["name"] for prm in b["params"] if prm.get("pat")]
         line, it = ("in", names[1]), ("in", names[2])
         ok_, desc = format_frames_forms(fx, sy, res, line, it, names[2])
@@ -688,6 +692,14 @@ def format_frames_forms(fx, sy, res, line, it, it_name):
     loops = [sy.loops[k_] for k_ in sy.loop_order]
     if len(loops) > 1:
         return False, ["%d loops" % len(loops)]
+    # form E: `let mut any = false; for f in it { indented(f)?; any = true; } if any { Ok(()) } else { verbatim }` - the flag is
+    # false before the loop and true at the end of every iteration that continues, so after the loop it says "at least one frame"
+    import readers as RD_
+    seen_flag = None
+    if len(loops) == 1:
+        fl_ = [t_ for t_, b_ in RD_.first_iteration_flags(sy, loops[0]) if b_ is False]
+        if len(fl_) == 1:
+            seen_flag = fc.canon_atom(("bool", fl_[0]))[0]
     for st, (k, v) in res:
         a = fc.assignment(st.conds)
         pre = []
@@ -702,6 +714,20 @@ def format_frames_forms(fx, sy, res, line, it, it_name):
         tfe = [e for e in pre if e[0] == "call" and e[1].endswith("Iterator::try_for_each")]
         has = a.get(pk)
         nx = None
+        if has is None and seen_flag is not None and a.get(seen_flag) is not None and any(e[0] == "loopsum" for e in st.effects):
+            # (after the flag loop: whatever is written now comes after all the frames)
+            post = st.effects[[i_ for i_, e_ in enumerate(st.effects) if e_[0] == "loopsum"][-1] + 1:]
+            wpost = [e for e in post if e[0] == "call" and e[1].endswith("write_fmt")]
+            if a.get(seen_flag) is True:
+                good = not wpost and not w
+                n_some += 1
+                desc.append("frames: flag loop, nothing written after it")
+            else:
+                good = len(wpost) == 1 and wpost[0][2][1] == VERB and not w
+                n_empty += 1
+                desc.append("no frames (flag still false): %s" % [S.tstr(e)[:80] for e in wpost])
+            okf = okf and good
+            continue
         if has is None and nexts:
             nx = ("mcall",) + tuple(nexts[0][1:])
             has = a.get(fc.canon_atom(("is", nx, "Some"))[0])
